@@ -29,6 +29,14 @@ def run(ctx):
     # the Coq model's slicing on a concrete instance of every block layout used below (ties model/XformN.v to the layouts)
     out = coqio.eval_terms('C16', ['model.XformN'], ['xform_blocks (fun x => x * 10 + 1) [[1; 2; 3]; []; [4]; [5; 6]]'])
     ctx.obligation('model:xform_blocks example', out[0] == [[11, 21, 31], [], [41], [51, 61]], str(out[0]))
+    # the order of magnitude of every change of scale used below, from the Coq model (model/Magnitude.v, exact on squares)
+    from fractions import Fraction
+    SCALES = [1, 1000, 0.001, 2, 3, 0.5, 300, 0.03, 8, 0.125, 3.16, 3.17, 31, 32, 0.316, 0.317]
+    mags = coqio.eval_terms('C16mag', ['model.Magnitude'], ['magnitude %s' % term(Fraction(str(sc))) for sc in SCALES])
+    MAG = {}
+    for sc, m in zip(SCALES, mags):
+        ctx.obligation('model:magnitude %s defined' % sc, m is not None, str(m))
+        MAG[float(sc)] = None if m is None else int(m.v)
     for ci in range(ctx.n(70, 900)):
         f = F.gen_forest(rng, 3, 25, roots=1, lattice=True, zero_edges=False)
         cn = F.gen_connectors(rng, f, 6)
@@ -51,8 +59,8 @@ def run(ctx):
             M, b = rand_int_affine(rng, unimodular=True)
         # change of scale: a power of ten, or a factor that is NOT a power of ten (2, 300, 0.03 ...): navis detects the order of
         # magnitude round(log10(scale)) and must move radii and units by exactly that power of ten (never by the raw factor)
-        scale = float(rng.choice([1, 1, 1, 1000, 0.001, 2, 3, 0.5, 300, 0.03, 8, 0.125])) if isometry else 1.0
-        scale_pow = int(round(np.log10(scale)))
+        scale = float(rng.choice([1, 1, 1] + SCALES[1:])) if isometry else 1.0
+        scale_pow = MAG[scale]
         A = tr.AffineTransform(hom(M * scale if scale != 1 else M, b))
         tmode = str(rng.choice(['affine', 'sequence', 'tps']))
         if abs(round(np.linalg.det(M))) != 1 and scale != 1:
